@@ -30,7 +30,8 @@ class PCN(Sampler):  # Refactor to Proposal-based sampler?
     def step(self):
         # propose state
         xi = self.prior.sample(1).flatten()   # sample from the prior
-        x_star = np.sqrt(1-self.scale**2)*self.current_point + self.scale*xi   # PCN proposal
+        prior_mean = getattr(self.prior, 'mean', 0) # PCN is defined relative to the prior mean
+        x_star = prior_mean + np.sqrt(1-self.scale**2)*(self.current_point-prior_mean) + self.scale*(xi-prior_mean)   # PCN proposal
 
         # evaluate target
         loglike_eval_star =  self._loglikelihood(x_star) 
